@@ -22,6 +22,7 @@ CHECKS["C07"] = {
     "technique": "bounded-exhaustive enumeration + rapid random generation against a reference model (segment stack) and containment predicates; FS sandbox with canary files",
     "nontrivial_floor": 1000,
     "units": [
+        {"name": "fs-vhost", "run": "^TestC07VHost$", "kind": "plain", "shards": 4},
         {"name": "regress", "run": "^TestC07Regress$", "kind": "plain"},
         {"name": "exhaustive", "run": "^TestC07Exhaustive$", "kind": "plain", "shards": 16},
         {"name": "random", "run": "^TestC07Random$", "kind": "rapid", "checks": {"quick": 40000, "thorough": 1600000}, "shards": {"quick": 4, "thorough": 16}},
@@ -346,6 +347,7 @@ CHECKS["C08"] = {
     "technique": "bounded-exhaustive range grid + rapid request sequences against an RFC 7233 reference over real files",
     "nontrivial_floor": 500,
     "units": [
+        {"name": "replaced-file", "run": "^TestC08Replaced$", "kind": "plain"},
         {"name": "cache-expiry", "run": "^TestC08CacheExpiry$", "kind": "plain", "shards": 8},
         {"name": "range-grid", "run": "^TestC08RangeGrid$", "kind": "plain", "shards": 8},
         {"name": "random", "run": "^TestC08Random$", "kind": "rapid", "checks": {"quick": 4000, "thorough": 100000}, "shards": {"quick": 4, "thorough": 16}},
